@@ -18,6 +18,7 @@ import re
 import sys
 
 from mc.runner import Acc, Report
+from mc import repeat
 from mc import winharness as WH
 from mc.term import Term
 
@@ -120,6 +121,10 @@ def pattern_fn(name):
     return fn
 
 
+QUERY_LIMIT_S = 20
+_EXPIRED = []  # queries of this worker that ran into the limit: after two, the long failure patterns are not tried again
+
+
 def check_query(acc, pre, report, row, col, trailing, with_cb, fail_at, case, pattern=None):
     from curtsies.window import CursorAwareWindow
 
@@ -130,10 +135,17 @@ def check_query(acc, pre, report, row, col, trailing, with_cb, fail_at, case, pa
     cb = (lambda b: got_extra.append(b)) if with_cb else None
     win = CursorAwareWindow(out_stream=px, in_stream=inp, extra_bytes_callback=cb)
     try:
-        res = win.get_cursor_position()
+        # one query reads a few dozen characters; a changed library that re-reads or re-scans without bound is a failed query,
+        # not a hung check (the limit is far above anything the unchanged code needs, also on a loaded machine)
+        with repeat._TimeLimit(QUERY_LIMIT_S):
+            res = win.get_cursor_position()
         exc = None
     except ValueError as ex:
         res, exc = None, ex
+    except repeat._TimeLimit.Expired:
+        _EXPIRED.append(1)
+        acc.failure("C18:query_does_not_finish", case, "no answer after %d s although the whole report had been supplied" % QUERY_LIMIT_S)
+        return
     except Exception as ex:  # noqa
         acc.failure("C18:query_raises:" + type(ex).__name__, case, repr(ex))
         return
@@ -234,7 +246,7 @@ def shard_a(args):
                             acc.transitions += 1
                             check_query(acc, pre, report, row, col, trailing, with_cb, (), case)
                     # long failure patterns ("any number of times")
-                    if (row, col) == (2, 10) or (thorough and row == col):
+                    if ((row, col) == (2, 10) or (thorough and row == col)) and len(_EXPIRED) < 2:
                         for pat in (("before_each", 1), ("before_each", 5), ("first", 150), ("middle", 150), ("before_each", 40), ("first", 1500), ("middle", 1200), ("first", 12000), ("middle", 9000)):
                             case = {"preceding": pre, "report": report, "trailing": "x", "callback": True, "failing_reads": list(pat)}
                             acc.case(True, key=(pre, report, pat), sample=case)
